@@ -11,6 +11,7 @@ import (
 	"path/filepath"
 	"sort"
 	"strconv"
+	"strings"
 	"sync"
 	"time"
 )
@@ -171,6 +172,19 @@ func (r *Recorder) Violation(replay interface{}) string {
 	r.violations++
 	r.mu.Unlock()
 	fmt.Printf("VIOLATION property=%s replay=%s\n", r.ID, path)
+	var brief struct {
+		Lane, Sig, Message string
+	}
+	if json.Unmarshal(js, &brief) == nil && brief.Sig != "" {
+		m := brief.Message
+		if i := strings.IndexByte(m, '\n'); i >= 0 {
+			m = m[:i]
+		}
+		if len(m) > 300 {
+			m = m[:300] + "..."
+		}
+		fmt.Printf("  sig=%s lane=%s %s\n", brief.Sig, brief.Lane, m)
+	}
 	return path
 }
 
